@@ -102,6 +102,8 @@ pub struct InputMod {
     pub mod_token: syn::token::Mod,
     pub ident: syn::Ident,
     pub brace_token: syn::token::Brace,
+    /// `//! ..` and `#![..]` at the top of the module
+    pub inner_attrs: Vec<syn::Attribute>,
     pub items: Vec<ModItem>,
 }
 
@@ -179,6 +181,8 @@ pub struct InputImpl {
     pub self_ty: syn::Type,
     #[expect(unused)]
     pub brace_token: syn::token::Brace,
+    /// `#![..]` at the top of the block
+    pub inner_attrs: Vec<syn::Attribute>,
     pub items: Vec<ImplItem>,
 }
 
@@ -246,6 +250,7 @@ fn parse_mod(
     if lookahead.peek(syn::token::Brace) {
         let content;
         let brace_token = syn::braced!(content in input);
+        let inner_attrs = content.call(syn::Attribute::parse_inner)?;
 
         let mut items = vec![];
 
@@ -259,6 +264,7 @@ fn parse_mod(
             mod_token,
             ident,
             brace_token,
+            inner_attrs,
             items,
         })
     } else {
@@ -312,6 +318,7 @@ fn parse_impl(
     if lookahead.peek(syn::token::Brace) {
         let content;
         let brace_token = syn::braced!(content in input);
+        let inner_attrs = content.call(syn::Attribute::parse_inner)?;
 
         let mut items = vec![];
 
@@ -327,6 +334,7 @@ fn parse_impl(
             for_token,
             self_ty,
             brace_token,
+            inner_attrs,
             items,
         })
     } else {
